@@ -25,7 +25,7 @@ MIN_EVALS = {'quick': 600, 'thorough': 20000}
 CLASS_FLOORS = {'accepted': 0.7}
 
 OPS = ['slice', 'limit', 'page', 'first', 'get', 'exists', 'count', 'aggr', 'distinct', 'without_distinct', 'filter',
-       'where', 'order_only', 'random', 'subquery', 'delete', 'len', 'order_twice']
+       'where', 'order_only', 'random', 'subquery', 'delete', 'len', 'order_twice', 'filter_twice', 'distinct_seq', 'subquery_slice']
 
 
 @st.composite
@@ -34,6 +34,13 @@ def cases(draw):
     ent = draw(st.sampled_from(['A', 'B', 'B', 'C']))
     cond = draw(st.one_of(st.none(), qgen.conditions('x', ent, 1)))
     shape = draw(st.sampled_from(['obj', 'obj', 'attr', 'tuple']))
+    if cond is not None and qgen.has_coll_aggregate(cond):
+        # with a projection (or an aggregate method) such a condition becomes HAVING over groups of the projected values
+        # -- Pony's query-level aggregate semantics, not list semantics of per-object rows: entity results only
+        shape = 'obj'
+        agg_cond = True
+    else:
+        agg_cond = False
     attrs = [n for n in qgen.ENT_ATTRS[ent] if n in ('n', 's')]
     proj = None
     if shape == 'attr':
@@ -41,7 +48,7 @@ def cases(draw):
     elif shape == 'tuple':
         proj = ['id', draw(st.sampled_from(attrs))]
     order = [(draw(st.sampled_from(attrs)), draw(st.booleans())) for i in range(draw(st.integers(0, 2)))]
-    op = draw(st.sampled_from(OPS))
+    op = draw(st.sampled_from([o for o in OPS if not (agg_cond and o == 'aggr')]))
     a = draw(st.integers(0, 9))
     b = draw(st.integers(0, 9))
     cond2 = draw(qgen.conditions('x', ent, 0, inner=True))
@@ -263,6 +270,50 @@ def check_case(ctx, case):
                             break
                     if not unspecified:
                         msg = expect(norm(q2[:]), keep, '.' + fn_src)
+            elif op == 'filter_twice':
+                # one lambda code object applied several times with different captured values
+                if base is not None and proj is None:
+                    vals = [qgen.INTS[a % len(qgen.INTS)], qgen.INTS[b % len(qgen.INTS)], qgen.INTS[(a + b + 1) % len(qgen.INTS)]][:2 + case['flag']]
+
+                    def ne(qq, v):
+                        return qq.filter(lambda x: x.n != v)
+                    q2 = q
+                    for v in vals:
+                        q2 = ne(q2, v)
+                    keep = [project(o, proj) for o in R if all(o['n'] != v for v in vals)]
+                    msg = expect(norm(q2[:]), keep, ''.join('.filter(lambda x: x.n != %r)' % v for v in vals) + ' [one lambda, applied repeatedly]')
+                    if msg is None:
+                        msg = expect(q2.count(), len(keep), ''.join('.filter(lambda x: x.n != %r)' % v for v in vals) + '.count()')
+            elif op == 'distinct_seq':
+                # the three distinct-ness variants of one query text, executed one after the other
+                if proj is not None:
+                    order3 = [['default', 'bag', 'set'], ['bag', 'default', 'set'], ['set', 'bag', 'default']][a % 3]
+                    for variant in order3:
+                        q0, d0, _ = build_query(case, classes, env, order=False)
+                        if variant == 'bag':
+                            got = norm(q0.without_distinct())
+                            ok = collections.Counter(got) == collections.Counter(Rp)
+                        elif variant == 'set':
+                            got = norm(q0.distinct())
+                            ok = len(got) == len(set(got)) and set(got) == set(Rp)
+                        else:
+                            got = norm(q0[:])
+                            ok = set(got) == set(Rp) and (not single_attr or len(got) == len(set(got)))
+                        if not ok:
+                            msg = '%s as %s (after %s in the same process) returned %r; full bag is %r' % (d0, variant, order3, got, Rp)
+                            break
+            elif op == 'subquery_slice':
+                # slicing a query that iterates over a limited subquery, including starts beyond the inner window
+                if base is not None and proj is None and a > 0:
+                    inner = q.limit(a, offset=b % 3)
+                    outer = select(y for y in inner)
+                    window = base[b % 3:b % 3 + a]
+                    lo = case['fn'] and (len(case['fn']) + a) % (n + 3)
+                    got = norm(outer[lo:])
+                    exp = window[lo:]
+                    if sorted(got, key=repr) != sorted(exp, key=repr):
+                        msg = expect(sorted(got, key=repr), sorted(exp, key=repr),
+                                     '.limit(%d, offset=%d) used as the source of another query, sliced [%d:]' % (a, b % 3, lo))
             elif op == 'order_only':
                 # ordering only permutes the unordered result
                 if single_attr:
